@@ -203,6 +203,7 @@ func (in *Interp) reset(prefix []int) {
 	in.guardsOff = false
 	in.quotedOf = map[string]Term{}
 	in.rtypes = nil
+	in.ordTerms = nil
 	in.lockCount = map[*Value]int{}
 }
 
